@@ -223,6 +223,11 @@ func (dl *datalog) put(key []byte, value []byte) (uint16, uint32, error) {
 }
 
 func (dl *datalog) sync() error {
+	if dl.segments[dl.curSeg.id] != dl.curSeg {
+		// The current segment was compacted and removed; there is nothing to sync
+		// until the next write creates a new segment.
+		return nil
+	}
 	return dl.curSeg.Sync()
 }
 
